@@ -230,7 +230,8 @@ impl Prop for C11 {
             1 => SeedSpec::CannedFrag,
             2 => SeedSpec::Canned("extended_audio_object_type.mp4".into()),
             3 | 4 => SeedSpec::Mux { seed: r.below(1 << 20) },
-            5 | 6 => SeedSpec::MuxReloc { seed: r.below(1 << 20) },
+            5 => SeedSpec::MuxReloc { seed: r.below(1 << 20) },
+            6 => SeedSpec::MuxShuffled { seed: r.below(1 << 20) },
             7 => SeedSpec::Meta { seed: r.below(1 << 20) },
             8 => SeedSpec::Frag { seed: r.below(1 << 20) },
             _ => {
